@@ -69,7 +69,7 @@ def generate(rng, tier, shard, nshards, mon):
                            "default": 0, "table": table, "own": ["free", "tensor"][idx % 2]}
                 idx += 1
     mon.exhaustive["3state-3coords-all-tables"] = True
-    nrand = (4000 if tier == "quick" else 50000) // nshards
+    nrand = (4000 if tier == "quick" else 200000) // nshards
     for _ in range(nrand):
         depth = rng.choice([1, 1, 2, 2, 3])
         default = rng.choice([0, 0, 7])
